@@ -15,6 +15,7 @@ func init() {
 	vpRegister("vpH_C14_maporder", vpH_C14_maporder)
 	vpRegister("vpH_C14_bigpool", vpH_C14_bigpool)
 	vpRegister("vpH_C15_frozen", vpH_C15_frozen)
+	vpRegister("vpH_C15_bigdrops", vpH_C15_bigdrops)
 }
 
 func vpBuildBytes(docs []*vpDoc, mode uint32) []byte {
@@ -179,6 +180,62 @@ func vpH_C15_frozen() {
 	}
 	vpAssert(same, "caller's bitmap unchanged")
 	vpReach("C15 frozen end")
+}
+
+// C15 with a LARGE caller-owned deletion bitmap (128 / 200 / 300 consecutive documents of
+// a 300-document segment): after a merge (segment first or last) or a PostingsList with
+// that bitmap as the exclusion set, the bitmap has the same members, the same
+// serialised bytes and the same run-compression state as before - an implementation may
+// not even re-encode (RunOptimize) what the caller handed in, since the caller may be
+// reading it concurrently or persisting it.  The roaring model records RunOptimize
+// calls; the native replay sees the real container conversion.
+func vpH_C15_bigdrops() {
+	docs := vpBigDocs(300, nil)
+	seg := vpBuild(docs, 1025)
+	n := []int{128, 200, 300}[vpChoice("drops", 3)]
+	bm := roaring.New()
+	for d := 0; d < n; d++ {
+		bm.Add(uint32(d + (300-n)/2))
+	}
+	want := bm.ToArray()
+	wantBytes, _ := bm.ToBytes()
+	wantRun := bm.HasRunCompression()
+	other := vpBuild([]*vpDoc{{fields: []*vpField{{name: "a", length: 1, terms: []*vpTerm{{term: []byte("x"), freq: 1}}}}}}, 1025)
+	switch vpChoice("op", 3) {
+	case 0:
+		vpNote("op:Merge(segment first, big drops)")
+		var buf bytes.Buffer
+		_, err := Merge([]segment.Segment{seg, other}, []*roaring.Bitmap{bm, nil}, 0).WriteTo(&buf, nil)
+		vpMust(err, "merge")
+	case 1:
+		vpNote("op:Merge(segment last, big drops)")
+		var buf bytes.Buffer
+		_, err := Merge([]segment.Segment{other, seg}, []*roaring.Bitmap{nil, bm}, 0).WriteTo(&buf, nil)
+		vpMust(err, "merge")
+	default:
+		vpNote("op:PostingsList(big except)")
+		d, err := seg.Dictionary("a")
+		vpMust(err, "Dictionary")
+		pl, err := d.PostingsList([]byte("x"), bm, nil)
+		vpMust(err, "PostingsList")
+		vpAssert(pl.Count() == uint64(300-n), "count excludes the bitmap")
+		it, err := pl.Iterator(true, true, true, nil)
+		vpMust(err, "Iterator")
+		for p, _ := it.Next(); p != nil; p, _ = it.Next() {
+		}
+	}
+	got := bm.ToArray()
+	same := len(got) == len(want)
+	if same {
+		for i := range got {
+			same = same && got[i] == want[i]
+		}
+	}
+	vpAssert(same, "caller's big bitmap: members unchanged")
+	vpAssert(bm.HasRunCompression() == wantRun, "caller's big bitmap: not re-encoded (run compression state unchanged)")
+	gotBytes, _ := bm.ToBytes()
+	vpAssert(len(gotBytes) == len(wantBytes) && vpBytesEq(gotBytes, wantBytes), "caller's big bitmap: serialised bytes unchanged")
+	vpReach("C15 bigdrops end")
 }
 
 // C14 with a large batch in the history: a build of 1030 documents (two
